@@ -15,6 +15,7 @@
    (std.out is opened with "a": it accumulates over all runs of the trial), a pause/stop
    marker that decides the status before the process state does (_read_status), and a worker
    that is gone only after it wrote [late] further reports following a PAUSE/STOP decision.
+   [Generic] = TrialBackend's poll logic with LocalBackend's hooks; [Sim] = SimulatorBackend.
    Everything the world and the scheduler do is an INPUT (event list); no proofs here. *)
 From Verif Require Import model.Base.
 
@@ -122,12 +123,17 @@ Definition t_pause (bk : bkind) (late : nat) (t : tr) : tr :=
 Definition t_stop (bk : bkind) (late : nat) (t : tr) : tr :=
   drop_window bk
     (t_kill bk late (set_mark (match mark t with PauseMark | BothMark => BothMark | _ => StopMark end) t)).
-(* TrialBackend.resume_trial after its assertions: _resume_trial (marker removed), _schedule
-   (new worker), status := in_progress; ghost: the run that ends is filed under [past] *)
-Definition t_resume (reps : list rep) (t : tr) : tr :=
+(* TrialBackend.resume_trial after its assertions: _resume_trial, _schedule (new worker),
+   status := in_progress; ghost: the run that ends is filed under [past].
+   _resume_trial: LocalBackend removes the pause marker and counts everything std.out holds at
+   that moment as seen (patch F-C02-1: reports the paused run wrote after the last poll must not
+   be delivered as results of the resumed trial); SimulatorBackend: nothing (its pause already
+   dropped and counted the results of the stop window). *)
+Definition t_resume (bk : bkind) (reps : list rep) (t : tr) : tr :=
   mkTr (log t) reps Running
        (match mark t with PauseMark => NoMark | BothMark => StopMark | m => m end)
-       (seen t) InProgress (nrf t) reps [] (length (log t)) Live
+       (match bk with Generic => length (log t) | Sim => seen t end)
+       InProgress (nrf t) reps [] (length (log t)) Live
        (past t ++ [(cur t, dcur t, fin t)]).
 
 (* ---- trial table ------------------------------------------------------------ *)
@@ -295,7 +301,7 @@ Definition step (bk : bkind) (st : state) (e : ev) : state * option err :=
       | None => (st, Some ResumeBadId)
       | Some t =>
           if status_eqb (resume_status bk t) Paused
-          then (mkSt (upd i (t_resume reps) ts) (out st) (polls st), None)
+          then (mkSt (upd i (t_resume bk reps) ts) (out st) (polls st), None)
           else (st, Some ResumeNotPaused)
       end
   | Poll ids decs =>
